@@ -69,9 +69,9 @@ InvPrefixParse == kind = "blob" =>
   /\ q.ok <=> \E k \in 0..Len(blob) : StdParse(<<Lit(Sub(blob, 1, k))>>).ok
 \* lazy strings agree with their materialisation
 InvLazy == kind = "blob" =>
-  LET bs == <<Lit(Sub(blob, 1, Len(blob) \div 2)), PatSeg(Len(blob), 5), Lit(Sub(blob, Len(blob) \div 2 + 1, Len(blob)))>>
+  LET bs == <<Lit(Sub(blob, 1, Len(blob) \div 2)), PatSeg(Len(blob), 5), ZeroSeg(2), Lit(Sub(blob, Len(blob) \div 2 + 1, Len(blob)))>>
       m == Materialize(bs)
       pts == {0, 1, Len(blob) \div 2, Len(blob) \div 2 + 3, Len(m) - 1, Len(m)} \cap 0..Len(m)
-  IN /\ Len(m) = Len(blob) + 5
+  IN /\ Len(m) = Len(blob) + 7
      /\ \A a \in pts, b \in 0..Len(m) : NonZeroIn(bs, a, b) = Cardinality({i \in (a + 1)..b : m[i] # 0})
 =============================================================================
